@@ -25,7 +25,7 @@ M32 = 1 << 32
 ODD_NPO, ODD_PPO = 77, 55
 
 UNIT_KINDS = ("SH", "PIC", "FRAG0", "FRAG1", "PAD0", "PAD1", "PAD5", "AUX0", "AUX3", "EOS")
-FEATURES = ("none", "ld", "fr12", "sr5", "cs5", "prim4", "matrix4", "tf4")
+FEATURES = ("none", "ld", "fr12", "sr5", "cs5", "prim4", "matrix4", "tf4", "prim1+tf4", "matrix2+tf5", "prim2+matrix4", "prim1+matrix1+tf1", "fr3+sr2")
 TRANSFORMS = ("sym", "asym_index", "asym_depth", "etp_neutral", "index_flag_only_wi1", "index_flag_only", "depth_flag_only", "wi1")
 
 # a unit = (kind, npo, ppo, pn, mv, feature, transform); choice values:
@@ -81,6 +81,20 @@ def build_description(seqs):
                     vp["color_spec"] = fd.ColorSpec(custom_color_spec_flag=True, index=0, color_matrix=fd.ColorMatrix(custom_color_matrix_flag=True, index=4))
                 if feat == "tf4":
                     vp["color_spec"] = fd.ColorSpec(custom_color_spec_flag=True, index=0, transfer_function=fd.TransferFunction(custom_transfer_function_flag=True, index=4))
+                if "+" in feat and not feat.startswith("fr3"):
+                    cs = fd.ColorSpec(custom_color_spec_flag=True, index=0)
+                    for part in feat.split("+"):
+                        name, idx = part.rstrip("0123456789"), int(part[len(part.rstrip("0123456789")):])
+                        if name == "prim":
+                            cs["color_primaries"] = fd.ColorPrimaries(custom_color_primaries_flag=True, index=idx)
+                        elif name == "matrix":
+                            cs["color_matrix"] = fd.ColorMatrix(custom_color_matrix_flag=True, index=idx)
+                        elif name == "tf":
+                            cs["transfer_function"] = fd.TransferFunction(custom_transfer_function_flag=True, index=idx)
+                    vp["color_spec"] = cs
+                if feat == "fr3+sr2":
+                    vp["frame_rate"] = fd.FrameRate(custom_frame_rate_flag=True, index=3)
+                    vp["signal_range"] = fd.SignalRange(custom_signal_range_flag=True, index=2)
                 du["sequence_header"] = fd.SequenceHeader(parse_parameters=pp, video_parameters=vp)
             elif kind in ("PIC", "FRAG0", "FRAG1"):
                 tp = fd.TransformParameters()
@@ -141,6 +155,8 @@ def build_description(seqs):
     return fd.Stream(sequences=out)
 
 
+# header features that need major_version 3 (preset indices introduced by the 2017 edition)
+V3_FEATURES = ("fr12", "sr5", "cs5", "prim4", "matrix4", "tf4", "prim1+tf4", "matrix2+tf5", "prim2+matrix4")
 ASYM = ("asym_index", "asym_depth", "index_flag_only_wi1")  # transform variants that are really asymmetric
 HAS_ETP = ("asym_index", "asym_depth", "etp_neutral", "index_flag_only_wi1", "index_flag_only", "depth_flag_only")
 
@@ -154,7 +170,7 @@ def required_version(units):
         if kind == "SH":
             if feat != "ld":
                 v = max(v, 2)  # high quality profile (the description default)
-            if feat in ("fr12", "sr5", "cs5", "prim4", "matrix4", "tf4"):
+            if feat in V3_FEATURES:
                 v = max(v, 3)
         if kind in ("FRAG0", "FRAG1"):
             v = max(v, 3)
@@ -240,7 +256,7 @@ def check(seqs, data):
                     problems.append("unit %d: minor_version/profile/level %r do not equal explicit/default values" % (k, (got_minor, got_profile, got_level)))
                 if coded_version is None:
                     coded_version = got_mv
-                minv = 3 if feat in ("fr12", "sr5", "cs5", "prim4", "matrix4", "tf4") else 1
+                minv = 3 if feat in V3_FEATURES else 1
                 a["header"] = data[off + 13 : end]
                 a["hdr"] = {"major_version": got_mv, "profile": got_profile, "level": got_level, "fields": False, "min_version": minv}
             abstract.append(a)
